@@ -58,6 +58,35 @@ def raceRound (n : Nat) : Sx :=
   let (_, rs) := raceStep n st2 (canonStepReq .fin cid)
   .list (.atom "round" :: outs ++ [Sx.list (.atom "step" :: .atom "12" :: sortSx rs)])
 
+partial def jsonSubstStr (frm to : String) : Json → Json
+  | .str s => .str (if s == frm then to else s)
+  | .arr l => .arr (l.map (jsonSubstStr frm to))
+  | .obj l => .obj (l.map fun (k, v) => (k, jsonSubstStr frm to v))
+  | j => j
+
+/-- group equal outcomes: (rendered, count, first index, outcome), in order of first appearance -/
+def groupOutcomes (outs : List Sx) : List Sx :=
+  let gs := (outs.zipIdx).foldl (fun (acc : List (String × Nat × Nat × Sx)) (o, i) =>
+    let key := render o
+    if acc.any (fun g => g.1 == key) then
+      acc.map fun g => if g.1 == key then (g.1, g.2.1 + 1, g.2.2.1, g.2.2.2) else g
+    else acc ++ [(key, 1, i, o)]) []
+  gs.map fun g => Sx.list [.atom (toString g.2.1), .atom (toString g.2.2.1), g.2.2.2]
+
+/-- `(many n _)`: n clients `Start`, then every client's step k for k = 1..12, client 0 first -/
+def manyRun (n : Nat) : Sx :=
+  let idOf := fun (c : Nat) => "@cid" ++ toString c
+  let positions := List.range 13
+  let (_, steps) := positions.foldl (fun (acc : CertState × List Sx) pos =>
+    let (st, outs) := (List.range n).foldl (fun (a : CertState × List Sx) c =>
+      let req := canonReq pos (idOf c)
+      let (st', res) := certServe cvtF64 certConsts "" a.1 (idOf c) req
+      let reps := res.out.map fun r =>
+        repSx { r with parameters := r.parameters.map (jsonSubstStr (idOf c) "@cid") }
+      (st', a.2 ++ [Sx.list (.atom "r" :: ofBool (!res.ok) :: reps)])) (acc.1, [])
+    (st, acc.2 ++ [Sx.list (.atom "step" :: .atom (toString pos) :: groupOutcomes outs)])) (CertState.empty, [])
+  .list (.atom "obs" :: steps)
+
 def certLine (line : String) : String :=
   match parse line with
   | some (.list (.atom "cert" :: qs)) =>
@@ -77,6 +106,10 @@ def certLine (line : String) : String :=
         Sx.list (.atom "client" :: (evs.filter fun e => e.1 == c).map fun e =>
           Sx.list (.atom "r" :: .atom "f" :: e.2.2.map repSx))
       render (.list (.atom "obs" :: clients))
+    | none => "(model-case-error)"
+  | some (.list [.atom "many", n, _]) =>
+    match asNat n with
+    | some n => render (manyRun n)
     | none => "(model-case-error)"
   | some (.list [.atom "race", n, rounds]) =>
     match asNat n, asNat rounds with
@@ -128,6 +161,25 @@ def certPred (prop : String) (caseLine obsLine : String) : String :=
       | none => "ok"
       | some r => "fail " ++ r
     | none => "fail unparsable-observation"
+  | some (.list [.atom "many", n, _]), some (.list (.atom "obs" :: steps)) =>
+    let parsed : Option (List (Nat × List (Nat × Nat × Bool × List Reply))) := steps.mapM fun st => match st with
+      | Sx.list (Sx.atom "step" :: pos :: gs) => do
+        let pos ← asNat pos
+        let gs ← gs.mapM fun g => match g with
+          | Sx.list [cnt, first, r] => do
+            let cnt ← asNat cnt
+            let first ← asNat first
+            let r ← parseR r
+            pure (cnt, first, r.1, r.2)
+          | _ => none
+        pure (pos, gs)
+      | _ => none
+    match parsed, asNat n with
+    | some parsed, some n =>
+      match P_C19_many n parsed with
+      | none => "ok"
+      | some r => "fail " ++ r
+    | _, _ => "fail unparsable-observation"
   | some (.list [.atom "race", n, _]), some (.list (.atom "obs" :: xs)) =>
     let rounds : Option (List (List (Nat × List (Bool × List Reply)))) := xs.mapM fun x => match x with
       | Sx.list [Sx.atom "x", _, Sx.list (Sx.atom "round" :: steps)] =>
